@@ -27,12 +27,15 @@ CONSTANTS Ids,        \* identifiers
           MaxDepth,   \* block nesting bound (1: function bodies only, 2: one nested block)
           MixKinds,   \* may an identifier be declared both as object and as function
           AsmForms,   \* generate __asm__ labels on first declarations
+          AsmFirst,   \* (with AsmForms) the first declaration of an identifier must carry the label
+          Kinds,      \* kinds generated, subset of {"obj", "func"}
           DevsOn,     \* deviations switched on in the model compared with the binary
           OkPrefix,   \* extend only histories that are well-defined so far (random multi-identifier units)
           SampleMod,  \* histories of full length MaxLen are emitted only if Hash(hist) % SampleMod = 0 (1: all)
           Emit        \* "all": VCASE at every state; "full": only where a history cannot be extended; "none"
 
 AllDevs == {"ExternInheritsNoLinkage",     \* getlinkage: `extern` after a visible no-linkage declaration gets *its* linkage (none)
+                                           \* (fixed in /repo by 82bd59f: switched off in every cfg, kept as a negative control)
             "ThreadNoTentative",           \* decl(): file-scope _Thread_local without initializer is defined on the spot, every time
             "ThreadMismatchNotDiagnosed",  \* 6.7.1p3: _Thread_local must be on every declaration of the object; not checked
             "InlineLateExternal",          \* XXX in decl(): inline definition not kept for a later non-inline/extern declaration
@@ -455,6 +458,8 @@ Next ==
          LET firstdecl == ~\E j \in 1..Len(hist) : hist[j].id = id IN
          /\ MixKinds \/ \A j \in 1..Len(hist) : hist[j].id = id => hist[j].kind = f.kind
          /\ a => (firstdecl /\ p = <<>> /\ f.def # "body")
+         /\ (AsmFirst /\ firstdecl) => a
+         /\ f.kind \in Kinds
          /\ Declare([id |-> id, path |-> p, sc |-> f.sc, tls |-> f.tls, inl |-> f.inl, kind |-> f.kind,
                      def |-> f.def, asm |-> a])
 
